@@ -88,7 +88,7 @@ TABLE = {
         "technique": "runtime monitor: assertion on J.A(J) with the stated allowances; exhaustive enumeration of all {-1,0,1} matrices up to 3x3; reference min-norm point by support enumeration",
         "text": "Every entry of J.A(J) must be >= -(allowance + rounding slop) for UPGrad, DualProj, MGDA and CAGrad(c>=1): exhaustively on all 21 297 "
                 "{-1,0,1} matrices up to 3x3 and on hostile matrices with preference vectors and iteration budgets; MGDA's sub-optimality is also "
-                "compared with 8 s^2/(max_iters+2).",
+                "compared with 8 s^2/(max_iters+2), for budgets 1 .. 500 on all classes and 2000 .. 5000 on matrices where Frank-Wolfe revisits a vertex.",
         "note": "Allowances as stated in the property; CAGrad tolerance 3e-4 (float64) / 5e-3 (float32) times s^2 (1+c) (conic solver).",
     },
     "C08": {
